@@ -35,6 +35,7 @@ SPEC_MODULES = {
     "C14": ["specs.c14_threads"],
     "C15": ["specs.c15_portal"],
     "C16": ["specs.c16_buffered"],
+    "C17": ["specs.c17_tls"],
     "C18": ["specs.c18_sockets"],
     "C20": ["specs.c20_lru"],
 }
@@ -61,6 +62,71 @@ def _run_unit(arg):
         "trusted": list(getattr(u, "trusted", ())),
         "obligations": [dict(o.to_json(), props=sorted(u.props_of(o.name))) for o in res.obligations],
     }
+
+
+def _job_main(job, conn):
+    try:
+        conn.send(_run_unit(job))
+    except BaseException as e:  # noqa: BLE001
+        import traceback
+
+        conn.send({"__error__": "".join(traceback.format_exception(e))[-2000:]})
+    finally:
+        conn.close()
+
+
+def _failed_result(job, status, message):
+    """a unit whose worker process died or overran its hard wall-clock limit: undecided / crashed, never a verdict"""
+    modname, idx, tier, prefix = job
+    mod = importlib.import_module(modname)
+    u = mod.UNITS[idx]()
+    return {"unit": getattr(u, "qualname", None) or getattr(u, "name", str(u)), "module": modname, "status": status, "message": message, "paths": 0, "functions": [], "props": list(getattr(u, "props", ())), "seconds": 0.0, "trusted": list(getattr(u, "trusted", ())), "obligations": []}
+
+
+def _run_jobs(jobs, nproc):
+    """one process per job, at most `nproc` at a time, each with a hard wall-clock limit; a worker that dies (solver
+    crash, out of memory) or hangs is reported as crashed / undecided instead of blocking the whole check"""
+    from segvc import unit as U
+
+    hard = 3 * U.UNIT_BUDGET_S + 120
+    ctx = mp.get_context("fork")
+    pending = list(enumerate(jobs))
+    running = {}
+    results = [None] * len(jobs)
+    while pending or running:
+        while pending and len(running) < nproc:
+            i, job = pending.pop(0)
+            parent, child = ctx.Pipe(duplex=False)
+            p = ctx.Process(target=_job_main, args=(job, child), daemon=True)
+            p.start()
+            child.close()
+            running[i] = (p, parent, time.time(), job)
+        time.sleep(0.05)
+        for i in list(running):
+            p, conn, t0, job = running[i]
+            got = None
+            if conn.poll():
+                try:
+                    got = conn.recv()
+                except EOFError:
+                    got = None
+                p.join(5)
+                if got is None:
+                    results[i] = _failed_result(job, "crash", f"worker process ended without a result (exit code {p.exitcode})")
+                elif "__error__" in got:
+                    results[i] = _failed_result(job, "crash", got["__error__"])
+                else:
+                    results[i] = got
+                del running[i]
+            elif not p.is_alive():
+                results[i] = _failed_result(job, "crash", f"worker process died (exit code {p.exitcode})")
+                del running[i]
+            elif time.time() - t0 > hard:
+                p.kill()
+                p.join(5)
+                results[i] = _failed_result(job, "undecided", f"unsupported: the unit overran its hard wall-clock limit of {hard} s and was stopped (undecided, not a verdict)")
+                del running[i]
+    return results
 
 
 def collect_units(prop):
@@ -107,8 +173,7 @@ def main(argv=None):
         else:
             jobs.append((m, i, args.tier, ()))
     if args.j > 1 and len(jobs) > 1:
-        with mp.get_context("fork").Pool(min(args.j, len(jobs))) as pool:
-            results = pool.map(_run_unit, jobs, chunksize=1)
+        results = _run_jobs(jobs, min(args.j, len(jobs)))
     else:
         results = [_run_unit(j) for j in jobs]
     if args.v:
